@@ -361,6 +361,14 @@ def wakeTasksOfPipe (w : World) (k : Nat) : World :=
       | some t => if t.inPipe = k || ((t.inPipe = k || t.outPipe = k) && t.phase ≠ .running) then { a with woken := true } else a
       | none => a }
 
+/-- `release` wakes only the close waker, which a task registers inside `close_connection` (a running task
+that never called `poll_shutdown` is not polled). -/
+def wakeClosingTasksOfPipe (w : World) (k : Nat) : World :=
+  { w with taux := w.taux.map fun a =>
+      match taskOf w a with
+      | some t => if (t.inPipe = k || t.outPipe = k) && t.phase ≠ .running then { a with woken := true } else a
+      | none => a }
+
 -- ---------------------------------------------------------------- printing
 
 def finish (w : World) (res : String) : World × String :=
@@ -543,7 +551,7 @@ def step (w : World) (line : String) : World × String :=
           else if op = "stall" then
             run (pipeSet w k fun x => { x with stall := true }) "ok"
           else if op = "release" then
-            run (wakeTasksOfPipe (pipeSet w k fun x => { x with stall := false }) k) "ok"
+            run (wakeClosingTasksOfPipe (pipeSet w k fun x => { x with stall := false }) k) "ok"
           else if op = "rsend" then
             match rest.head?.bind hexBytes? with
             | some bytes =>
